@@ -425,7 +425,47 @@ def r08_7(ctx):
     ctx.run_rule("R08.7", "per-character decision table of the common-prefix scanner", body, floor=2)
 
 
+def r08_8(ctx, rid="R08.8"):
+    """The tree iterators visit every sibling: when the first child is taken, the rest of the slice is
+    stored back in `self.children`; when the iterator descends into a node, the position it saves as
+    `parent` is taken *after* that store (otherwise the remaining siblings are lost)."""
+    F = ctx.facts
+
+    def body(r):
+        its = [f for f in F.fn_list if f.name == "next" and f.trait == "std::iter::Iterator" and (f.adt or "").startswith("regex_radix_tree::iter::ItemIter")]
+        for f in its:
+            r.analysed(f)
+            short = f.adt.rsplit("::", 1)[1]
+            bad = set()
+            n_desc = n_adv = 0
+            is_tail = lambda v: (v[0] == "call" and v[1].endswith("Index::index") and mentions(v, lambda x: x[0] == "agg" and (x[1] or "").endswith("RangeFrom") and dict(x[3]).get("start") == ("const", 1))) \
+                or (v[0] == "field" and v[2] == "1" and mentions(v, lambda x: x[0] == "call" and x[1].rsplit("::", 1)[1] in ("split_first", "split_first_mut")))
+            for p in Sym(f, copies=True).paths():
+                took_first = any(a[0] == "disc" and a[1][0] == "call" and a[1][1].rsplit("::", 1)[1] in ("first", "split_first", "split_first_mut", "first_mut") and v == "Some" for a, v in p.conds)
+                if not took_first:
+                    continue
+                ev = p.events
+                store = [i for i, e in enumerate(ev) if e[0] == "write" and e[1] == ("field", ("param", 1), "children", f.adt) and is_tail(e[2])]
+                over = [i for i, e in enumerate(ev) if e[0] == "write" and e[1] == ("param", 1) and e[2][0] == "agg" and e[2][1] == f.adt]
+                if not store:
+                    bad.add("a first child is taken without storing the rest of the slice back")
+                    continue
+                n_adv += 1
+                if over:
+                    n_desc += 1
+                    takes = [i for i, e in enumerate(ev) if e[0] == "call" and e[1] in ("std::mem::take", "std::mem::replace") and e[2] and e[2][0] == ("param", 1)]
+                    parent = dict(ev[over[0]][2][3]).get("parent")
+                    ok = bool(takes) and store[0] < takes[0] < over[0] and parent is not None and mentions(parent, lambda x: x[0] == "call" and x[1] in ("std::mem::take", "std::mem::replace") and x[2] and x[2][0] == ("param", 1))
+                    if not ok:
+                        bad.add("descending into a node: the saved parent position is not the iterator after the remaining siblings were stored (they are never visited)")
+            r.ob("iter:%s:no-sibling-lost" % short, not bad and n_desc >= 1 and n_adv >= 3, f.site,
+                 "every arm stores the rest of the slice; the parent saved on descent holds it (%d advancing paths, %d descents)" % (n_adv, n_desc) if not bad else "; ".join(sorted(bad)))
+        r.ob("iter:iterators-found", len(its) == 2, "", "%d tree iterators" % len(its))
+    ctx.run_rule(rid, "tree iterators lose no sibling", body, floor=3)
+
+
 def run(ctx):
+    r08_8(ctx)
     r08_7(ctx)
     r08_1(ctx)
     r08_2(ctx)
